@@ -204,7 +204,7 @@ inductive Tok
   | named (n : Str)        -- `%(n)s`
   deriving DecidableEq, Repr
 
-inductive PMode | text | pct | name (acc : Str) | nameEnd (acc : Str)
+inductive PMode | text | pct | name (depth : Nat) (acc : Str) | nameEnd (acc : Str)
 
 /-- Scanner of Python's `%` operator restricted to `%%`, `%s`, `%(name)s`; any other conversion is `none`. -/
 def scanP : PMode → Str → Option (List Tok)
@@ -214,10 +214,17 @@ def scanP : PMode → Str → Option (List Tok)
   | .pct, c :: r =>
       if c = '%' then (scanP .text r).map (Tok.lit '%' :: ·)
       else if c = 's' then (scanP .text r).map (Tok.pos :: ·)
-      else if c = '(' then scanP (.name []) r
+      else if c = '(' then scanP (.name 0 []) r
       else none
-  | .name _, [] => none
-  | .name acc, c :: r => if c = ')' then scanP (.nameEnd acc) r else scanP (.name (acc ++ [c])) r
+  | .name _ _, [] => none
+  | .name d acc, c :: r =>
+      -- CPython counts nested parentheses inside a mapping key
+      if c = ')' then
+        match d with
+        | 0 => scanP (.nameEnd acc) r
+        | d' + 1 => scanP (.name d' (acc ++ [c])) r
+      else if c = '(' then scanP (.name (d + 1) (acc ++ [c])) r
+      else scanP (.name d (acc ++ [c])) r
   | .nameEnd _, [] => none
   | .nameEnd acc, c :: r => if c = 's' then (scanP .text r).map (Tok.named acc :: ·) else none
 
